@@ -4,7 +4,7 @@
 use super::{Prop, COMMON_ASSUMPTIONS};
 use crate::engine::{op, Scenario};
 use crate::refs::*;
-use crate::rt::{self, choice, R};
+use crate::rt::{self, choice, flag, R};
 use crate::spec::{self, *};
 use crate::{ensure, must};
 use bc_components::{AuthenticationTag, Compressed, EncryptedMessage, Nonce};
@@ -204,6 +204,8 @@ fn c13_roundtrip() -> R {
     let (e, name) = if i < cat.len() { (build(&cat[i]), cat[i].show()) }
         else { let j = i - cat.len(); let p = payload(j % npay); if j < npay { (p, format!("payload {}", j)) } else { (p.add_assertion("k", payload(j % npay)).add_assertion(payload((j + 1) % npay), "v"), format!("payload node {}", j)) } };
     rt::note(name.clone());
+    // the same envelope after each of its assertions was offered to it once more (present is decided by digest)
+    let e = { let mut x = e.clone(); if flag() { for a in e.assertions() { x = must!(x.add_assertion_envelope(a), "re-add refused"); } ensure!(bytes(&x) == bytes(&e), "adding the assertions an envelope already has changed it", "{}", name); } x };
     let before = bytes(&e);
     let obsc = matches!(kind(&e), Kind::Elided | Kind::Encrypted);
     let sobsc = matches!(kind(&e.subject()), Kind::Elided | Kind::Encrypted);
@@ -217,6 +219,12 @@ fn c13_roundtrip() -> R {
             ensure!(bytes(&e) == before, "compress altered its receiver", "");
             let cc = must!(c.compress(), "compress of a compressed envelope failed");
             ensure!(bytes(&cc) == bytes(&c), "compressing twice is not idempotent", "");
+            // ... also through the Compress action of the elision calls (removing form aimed at it, revealing form that reveals nothing)
+            op("elide_*_with_action(Compress) on a compressed envelope");
+            let ca = c.elide_removing_target_with_action(&c, &ObscureAction::Compress);
+            ensure!(bytes(&ca) == bytes(&c), "the Compress action on an already compressed element is not idempotent", "removing form");
+            let cr = c.elide_revealing_set_with_action(&std::collections::HashSet::new(), &ObscureAction::Compress);
+            ensure!(bytes(&cr) == bytes(&c), "the Compress action on an already compressed element is not idempotent", "revealing form");
             op("uncompress");
             let u = must!(c.uncompress(), "uncompress failed");
             ensure!(u.is_identical_to(&e) && bytes(&u) == before, "uncompress(compress(e)) is not identical to e", "{}", name);
@@ -232,6 +240,11 @@ fn c13_roundtrip() -> R {
             ensure!(c.assertions().len() == e.assertions().len(), "assertions changed by compress_subject", "");
             let cc = must!(c.compress_subject(), "compress_subject twice failed");
             ensure!(bytes(&cc) == bytes(&c), "compress_subject twice is not idempotent", "");
+            // (only where the subject's digest occurs nowhere else: the action hides every occurrence of its target)
+            if positions(&c).iter().filter(|p| p.d == dg(&c.subject())).count() == 1 {
+                let ca = c.elide_removing_target_with_action(&c.subject(), &ObscureAction::Compress);
+                ensure!(bytes(&ca) == bytes(&c), "the Compress action on an already compressed subject is not idempotent", "{}", name);
+            }
             if let Err(m) = well_formed(&c) { return rt::viol("compress_subject result not canonical", m); }
             op("uncompress_subject");
             let u = must!(c.uncompress_subject(), "uncompress_subject failed");
@@ -480,7 +493,7 @@ pub fn prop_c13() -> Prop {
         id: "C13",
         scenarios: vec![
             Scenario { name: "roundtrip", f: c13_roundtrip, thorough_only: false,
-                bounds: "every shape of <=7 (quick) / <=9 (thorough) elements + 21 larger shapes + 4 payload kinds (compressible, incompressible, empty, tiny) bare and in nodes x {compress/uncompress (+idempotence, +decode), compress_subject/uncompress_subject, compressed element as subject of 2 further assertions then uncompress_subject / compress_subject, every chain of 3 operations out of the 4} x every digest order; digest equal at every step",
+                bounds: "every shape of <=7 (quick) / <=9 (thorough) elements + 21 larger shapes + 4 payload kinds (compressible, incompressible, empty, tiny) bare and in nodes, as built or after each of its assertions was offered to it once more x {the Compress action of the elision calls on an already compressed envelope / subject, compress/uncompress (+idempotence, +decode), compress_subject/uncompress_subject, compressed element as subject of 2 further assertions then uncompress_subject / compress_subject, every chain of 3 operations out of the 4} x every digest order; digest equal at every step",
                 api: &["compress", "uncompress", "compress_subject", "uncompress_subject", "add_assertion_envelope", "replace_subject"] },
             Scenario { name: "misdeclared", f: c13_misdeclared, thorough_only: false,
                 bounds: "content A x declared digest of B over every shape of <=5 elements, bare / decoded / with an assertion; compressed element without digest",
@@ -496,6 +509,46 @@ pub fn prop_c13() -> Prop {
     }
 }
 
+/// deep nesting: a leaf under up to 40 levels (chains of wrappers, of objects, of predicates, of node subjects via
+/// compress / uncompress_subject, mixed); obscuring the innermost leaf by each action gives four pairwise
+/// non-identical, all equivalent envelopes; identity survives encode -> decode
+fn c14_deep() -> R {
+    let depth = [1usize, 2, 11, 12, 13, 22, 23, 24, 25, 26, 31, 40][choice(12)];
+    let style = choice(4);
+    let inner = Envelope::new(leaf_text(800));
+    let mut e = inner.clone();
+    for i in 0..depth {
+        e = match style {
+            0 => e.wrap_envelope(),
+            1 => Envelope::new(leaf_text(801 + i as u32)).add_assertion(leaf_text(850), e),
+            2 => Envelope::new(leaf_text(801 + i as u32)).add_assertion(e, leaf_text(850)),
+            _ => if i % 2 == 0 { e.wrap_envelope() } else { Envelope::new(leaf_text(801 + i as u32)).add_assertion(leaf_text(850), e) },
+        };
+    }
+    rt::note(format!("depth {} style {}", depth, style));
+    op("elide_removing_target_with_action (innermost element)");
+    let variants: Vec<Envelope> = vec![
+        e.clone(),
+        e.elide_removing_target(&inner),
+        e.elide_removing_target_with_action(&inner, &ObscureAction::Encrypt(test_key())),
+        e.elide_removing_target_with_action(&inner, &ObscureAction::Compress),
+    ];
+    for (i, x) in variants.iter().enumerate() {
+        ensure!(dg(x) == dg(&e) && x.is_equivalent_to(&e), "obscuring changed the digest", "variant {}", i);
+        ensure!(positions(x).iter().any(|p| p.kind == [Kind::Leaf, Kind::Elided, Kind::Encrypted, Kind::Compressed][i] && p.d == dg(&inner)), "the innermost element was not obscured as asked", "variant {} depth {}", i, depth);
+        let back = must!(Envelope::try_from_cbor_data(bytes(x)), "decode of own encoding failed");
+        ensure!(back.is_identical_to(x) && x.is_identical_to(&back) && back == *x, "identity not preserved by encoding and decoding", "variant {} depth {}", i, depth);
+        for (j, y) in variants.iter().enumerate() {
+            op("is_identical_to / == / structural_digest");
+            let same = i == j;
+            ensure!(x.is_identical_to(y) == same, "is_identical_to wrong for two obscuration states of one deep position", "variants {} / {} depth {} style {}", i, j, depth, style);
+            ensure!((x == y) == same, "== wrong for two obscuration states of one deep position", "variants {} / {} depth {}", i, j, depth);
+            ensure!((x.structural_digest() == y.structural_digest()) == same, "structural_digest does not separate two obscuration states of one deep position", "variants {} / {} depth {}", i, j, depth);
+        }
+    }
+    Ok(())
+}
+
 pub fn prop_c14() -> Prop {
     Prop {
         id: "C14",
@@ -503,6 +556,9 @@ pub fn prop_c14() -> Prop {
             Scenario { name: "pairs", f: c14_pairs, thorough_only: false,
                 bounds: "every shape of <=6 (quick) / <=7 (thorough) elements with unique content + larger shapes x every ordered pair from {original, re-decoded copy, unrelated envelope, same shape with other leaves, every single position (first 6/8) obscured by each of the 3 actions, every pair of disjoint positions obscured with 3 action pairs} x every digest order; the obscuration pattern is computed by the harness from its own choices, not from structural_digest",
                 api: &["is_equivalent_to", "is_identical_to", "PartialEq::eq", "structural_digest", "elide_removing_set_with_action", "try_from_cbor_data"] },
+            Scenario { name: "deep", f: c14_deep, thorough_only: false,
+                bounds: "a leaf nested under 1, 2, 11..13, 22..26, 31 or 40 levels in 4 styles (wrappers, objects, predicates, alternating) x its four obscuration states (clear, elided, encrypted, compressed): pairwise identity / == / structural_digest, equivalence, identity across encode -> decode",
+                api: &["is_identical_to", "is_equivalent_to", "PartialEq::eq", "structural_digest", "elide_removing_target_with_action", "try_from_cbor_data"] },
             Scenario { name: "triples", f: c14_triples, thorough_only: false,
                 bounds: "every shape of <=5 elements x every ordered triple of the same variant set (first 6 positions quick / 8 thorough): transitivity of identity and equivalence",
                 api: &["is_equivalent_to", "is_identical_to"] },
